@@ -50,6 +50,12 @@ def generate(rng, tier):
         for _ in range(2):
             out.append((G.case_text(rules, root, rand_ws_input(rng, 6), offset=rng.choice([2, 3, 7, 17, 60]), flags=0),
                         {"stream": "token-seq" if i % 3 == 0 else "random"}))
+    # literal terminals (Word/Bool/Nil use MatchWord, Integer a look-ahead, String a custom reader): same shift relation
+    for i in range(n // 2):
+        rules, root = G.rand_lit_grammar(rng)
+        for _ in range(2):
+            out.append((G.case_text(rules, root, G.rand_lit_input_for(rng, rules, root), offset=rng.choice([2, 3, 7, 17, 60]), flags=0),
+                        {"stream": "literals"}))
     return out
 
 MANIFEST = {'technique': 'Rocq simulation proof: the engine commutes with shifting every position; with C11, rendered line:column unchanged; the real engine is run at two base offsets per case and the two observations must be shifts of each other', 'text': 'Props/C12.v: C12_shift_engine (all combinators: nodes, errors, cache, logs shift uniformly), C12_placement_invariant (file alone vs behind arbitrary other files: same trees shifted, same error cause, identical error text), C12_rendered_unchanged (uses C11). The check parses every generated case alone and behind a filler file and requires observation2 = shift(observation1) on the implementation, and both equal to the model.', 'note': 'Trusted: as C01; positions >= 1 (File.SetOffset(0) excluded, C12_offset0_refuted documents why).', 'ref': 'DESIGN.md section 6, C12'}
